@@ -1550,14 +1550,20 @@ class XInterp(Interp):
         self.module = module
 
     # ------------------------------------------------------------------ budget shared through the world
+    _DISPATCH: dict[type, str] = {}
+
     def eval(self, e: ast.AST, env: dict) -> Any:
-        self.world.steps += 1
-        if self.world.steps > self.world.max_steps:
+        w = self.world
+        w.steps += 1
+        if w.steps > w.max_steps:
             raise Unsupported("step budget of the model run exceeded")
-        m = getattr(self, "e_" + type(e).__name__, None)
-        if m is None:
-            raise Unsupported(f"expression {type(e).__name__}: {ast.unparse(e)[:60]}")
-        return m(e, env)
+        name = XInterp._DISPATCH.get(type(e))
+        if name is None:
+            name = "e_" + type(e).__name__
+            if not hasattr(self, name):
+                raise Unsupported(f"expression {type(e).__name__}: {ast.unparse(e)[:60]}")
+            XInterp._DISPATCH[type(e)] = name
+        return getattr(self, name)(e, env)
 
     # ------------------------------------------------------------------ names
     def e_Name(self, e: ast.Name, env: dict) -> Any:
